@@ -395,6 +395,8 @@ def c06_one(beh, seed, sandbox):
         return {"verdict": "out", "why": "backslash before a line ending: manual and binary disagree"}
     os.makedirs(sandbox, exist_ok=True)
     ok, cm_err = cmake_accepts(text, sandbox, "f")
+    if not ok and "Expected a newline" in cm_err:
+        return {"verdict": "out", "why": "two commands on one line: not one of C06's fault classes"}
     invalid_escape = False
     if ftext.startswith("\\") and len(ftext) == 2 and ftext[1].isalnum() and ftext[1] not in "tnr":
         invalid_escape = not (fstart > 0 and text[fstart - 1] == "\\")
@@ -439,6 +441,50 @@ def c06_one(beh, seed, sandbox):
     return {"verdict": "ok" if ref_rejects else "harmless", "drift": drift, "case": case}
 
 
+FAULT_STRINGS = ['"', "\\", "#[[", "#[=[", "(", ")", "zz", '"q']
+
+
+def c06_pair(beh, seed, sandbox):
+    """two faults: the TLC-injected one plus a second one at a seeded position; the reference is the cmake binary only"""
+    import naming
+    rng = random.Random(seed)
+    text, offs = concretize(beh["text"], seed)
+    clean_syms = beh["text"][:beh["fault"]["pos"] - 1] + beh["text"][beh["fault"]["pos"] - 1 + len(beh["fault"]["t"]):]
+    clean, _ = concretize(clean_syms, seed)
+    p2 = rng.randint(0, len(text))
+    if fault_context(text, p2) in ("comment", "bracket") if not real_lex(text)[1] else False:
+        return {"verdict": "out"}
+    f2 = rng.choice(FAULT_STRINGS)
+    text2 = text[:p2] + f2 + text[p2:]
+    os.makedirs(sandbox, exist_ok=True)
+    ok, cm_err = cmake_accepts(text2, sandbox, "p")
+    if ok:
+        return {"verdict": "harmless"}
+    if "Expected a newline" in cm_err or _re.search(r"\\[\r\n]", text2):
+        # two commands on one line (CMake wants a line ending after every command; not one of C06's fault classes:
+        # parentheses balanced, no stray text) and backslash-newline (manual and binary disagree) are not judged
+        return {"verdict": "out"}
+    home = os.path.join(sandbox, "home")
+    os.makedirs(os.path.join(home, ".config", "cminx"), exist_ok=True)
+    fpath = os.path.join(sandbox, "faulty.cmake")
+    with open(fpath, "w", encoding="utf-8", newline="") as fh:
+        fh.write(text2)
+    out1 = os.path.join(sandbox, "out1")
+    exc1, _ = naming.run_main(["-o", out1, fpath], sandbox, home)
+    page1 = os.path.exists(os.path.join(out1, "faulty.rst"))
+    toks, errs = real_lex(text2)
+    lookalike = any(nm == "Unquoted_argument" and _re.match(r"^\[(=*)\[", text2[a:b + 1])
+                    and not _re.match(r"^\[(=*)\[.*\]\1\]$", text2[a:b + 1], _re.S) for nm, a, b in toks)
+    failed = exc1 is not None and not exc1.startswith("SystemExit: 0") and not exc1.startswith("SystemExit: None")
+    if not failed or page1:
+        case = {"text": text2, "fault": [beh["fault"]["t"], f2], "at": p2, "context": "pair", "cmake_parse_error": True,
+                "invalid_escape": False, "bracket_lookalike_unquoted": bool(lookalike)}
+        return {"verdict": "viol", "case": case, "expected": "error reported, non-zero status, no .rst for the faulty file",
+                "observed": {"single_file": {"failed": failed, "exc": exc1, "page_written": page1}, "lexer_skipped_characters": bool(errs)},
+                "why": "a file with two injected faults that CMake rejects is accepted or documented", "drift": None}
+    return {"verdict": "ok", "case": None, "drift": None}
+
+
 def _chunk06(args):
     chunk, seed, base = args
     import subprocess
@@ -446,8 +492,15 @@ def _chunk06(args):
     for n, beh in chunk:
         sb = os.path.join(base, "c%d_%d" % (os.getpid(), n))
         try:
-            out.append((n, c06_one(beh, seed * 1000003 + n, sb)))
+            r = c06_one(beh, seed * 1000003 + n, sb)
+            if r["verdict"] != "viol" and n % 3 == 0:
+                r2 = c06_pair(beh, seed * 1000003 + n, sb + "_pair")
+                if r2["verdict"] == "viol":
+                    r = r2
+                r["pair"] = r2["verdict"]
+            out.append((n, r))
         finally:
+            subprocess.run(["rm", "-rf", sb + "_pair"])
             subprocess.run(["rm", "-rf", sb])
     return out
 
@@ -470,6 +523,8 @@ def replay_c06(run, behs, seed, limit=None):
                     beh = behs[n]
                     run.behaviours += 1
                     stats[r["verdict"]] += 1
+                    if "pair" in r:
+                        stats["pairs_" + r["pair"]] = stats.get("pairs_" + r["pair"], 0) + 1
                     if r["verdict"] != "out":
                         run.count("".join(beh["text"]) + "|%d" % beh["fault"]["pos"])
                     if r["verdict"] == "viol":
